@@ -470,12 +470,37 @@ def check(repo, rep):
     ifn = cx.fn('cmdline_util', 'initialize_workers')
     npw = 0
     for l in il:
+        if l.outcome == 'raise':
+            continue                    # a path that raises builds no workers at all (whatever -q says)
         pw = [e for e in l.effects if e[0] == 'call' and e[1][0] == 'call' and e[1][1] == ('g', 'workers', 'PrintWorker')]
         qc = [c for c in l.conds if any(x == ('c', 'quiet') for x in walk(c[0]))]
         if not qc:
             rep.unknown('initialize_workers: a path does not test the quiet option')
             continue
-        quiet = qc[0][1]
+        # which value of the quiet option takes this path: the option is given both values and taken through the path's tests on it
+        from ..semantic import evaluator as _evq
+        from ..termeval import NotEvaluable as _NEq
+        poss = []
+        try:
+            for val_ in (True, False):
+                ok_ = True
+                for ct, tr, _ in qc:
+                    qterm = next(x for x in walk(ct) if x[0] == 'sub' and x[2] == ('c', 'quiet'))
+                    ev_ = _evq({qterm: val_})
+                    got_ = ev_.ev(ct)
+                    if ev_.leaves:
+                        raise _NEq('depends on more than the option')
+                    if bool(got_) != tr:
+                        ok_ = False
+                if ok_:
+                    poss.append(val_)
+        except (_NEq, StopIteration) as exc:
+            rep.unknown('initialize_workers: a test on the quiet option could not be evaluated (%s)' % exc)
+            continue
+        if len(poss) != 1:
+            rep.unknown('initialize_workers: a path is taken for %d values of the quiet option' % len(poss))
+            continue
+        quiet = poss[0]
         npw += 1
         rep.ob('-q prints nothing (no PrintWorker) and without -q exactly one PrintWorker observes', (len(pw) == 0) if quiet else (len(pw) == 1), cx.where('cmdline_util', ifn), 'initialize_workers:quiet=%s' % quiet, '%d PrintWorker(s) with quiet=%s' % (len(pw), quiet))
         if pw:
@@ -485,6 +510,26 @@ def check(repo, rep):
             pf = b.get('print_format')
             okpf = pf is not None and any(x == ('sub', ('p', 'kwargs'), ('c', 'printf')) for x in walk(pf))
             rep.ob('--printf reaches the PrintWorker as its print format', okpf, cx.where('cmdline_util', pw[0][3]), 'initialize_workers:printf', 'print_format is %s' % (show(pf)[:80] if pf else None))
+            if okpf:
+                # what the template is turned into: the two-character sequences \\n \\t \\r become the control characters, every other
+                # character (any script) stays as typed -- evaluated on sample templates
+                from ..semantic import evaluator as _evp
+                from ..termeval import NotEvaluable as _NEp
+                PF = ('sub', ('p', 'kwargs'), ('c', 'printf'))
+                badpf = None
+                try:
+                    for tpl in ('{id}: {start} -> {end}', 'a\\nb\\tc\\rd', '\u00e9v\u00e8nement n\u00b0{id} \u2192 {end}', '{id}\\n', 'x\\\\y', '100%'):
+                        e_ = _evp({PF: tpl})
+                        got = e_.ev(pf)
+                        if e_.leaves:
+                            raise _NEp('depends on %s' % [show(k)[:30] for k in e_.leaves][:2])
+                        want = tpl.replace('\\n', '\n').replace('\\t', '\t').replace('\\r', '\r')
+                        if got != want and badpf is None:
+                            badpf = 'the template %r becomes %r, expected %r' % (tpl, got, want)
+                    rep.ob('the --printf template is used as typed but for \\n, \\t, \\r (which become newline, tab, carriage return)', badpf is None, cx.where('cmdline_util', pw[0][3]), 'initialize_workers:printf-escapes', badpf,
+                           sample=dict(print_format=show(pf)[:80]))
+                except _NEp as exc:
+                    rep.unknown('initialize_workers: what becomes of the --printf template could not be evaluated (%s): %s' % (exc, show(pf)[:80]))
             rep.ob('--time-format reaches the PrintWorker', b.get('time_format') == ('sub', ('p', 'kwargs'), ('c', 'time_format')), cx.where('cmdline_util', pw[0][3]), 'initialize_workers:time-format', 'time_format is %s' % (show(b.get('time_format')) if b.get('time_format') else None))
             rep.ob('--timestamp-format reaches the PrintWorker', b.get('timestamp_format') == ('sub', ('p', 'kwargs'), ('c', 'timestamp_format')), cx.where('cmdline_util', pw[0][3]), 'initialize_workers:timestamp-format')
             app = [e for e in l.effects if e[0] == 'call' and e[1][0] == 'call' and e[1][1][0] == 'attr' and e[1][1][2] == 'append' and e[1][2] == (c,)]
@@ -537,7 +582,14 @@ def check(repo, rep):
             rep.ob('{%s} is the detection\'s %s%s' % (k, k, '' if k == 'id' else ' rendered by the time formatter'), kws.get(k) in alts, cx.where(pm[0], pm[2]), 'PrintWorker._process_message:%s' % k,
                    '{%s} = %s' % (k, show(kws[k])[:80] if k in kws else 'missing'), sample=dict(placeholder=k, value=show(kws[k])[:60] if k in kws else None))
         rep.ob('{timestamp} is provided', 'timestamp' in kws, cx.where(pm[0], pm[2]), 'PrintWorker._process_message:timestamp')
-    rep.ob('the PrintWorker builds its time formatter from --time-format', len(fmtf) == 1 and any(d['value'][2] == (('p', 'time_format'),) for d in pdefs[fmtf[0]]), cx.where('workers', pc), 'PrintWorker.__init__:formatter')
+    mk_defs = [d for f_ in fmtf for d in pdefs[f_] if d['value'][0] == 'call' and term_name(d['value'][1]).endswith('make_duration_formatter')]
+    rep.ob('the PrintWorker builds its time formatter from --time-format', len(fmtf) == 1 and any(d['value'][2][:1] in ((('p', 'time_format'),), ) or (d['value'][2][:1] and d['value'][2][0][0] == 'attr' and d['value'][2][0][1] == ('self',)) for d in mk_defs),
+           cx.where('workers', pc), 'PrintWorker.__init__:formatter')
+    for d in mk_defs:
+        # an unknown directive in --time-format is an error of the command line: it is raised where the worker is built (main's thread,
+        # before anything runs), not later inside the worker thread, where it would kill the printing silently
+        rep.ob('the time formatter is built when the PrintWorker is constructed (a bad --time-format fails at start-up)', d['method'] == '__init__', cx.where('workers', d['node']), 'PrintWorker.%s:formatter-built-late' % d['method'],
+               'make_duration_formatter is called in %s' % d['method'])
     # ---------------------------------------------------------------- formatter table (B.5)
     ffn = cx.fn('util', 'make_duration_formatter')
     fl = cx.leaves('util', 'make_duration_formatter')
